@@ -6,6 +6,7 @@ cd "$(dirname "$0")"
 export GOFLAGS=-mod=mod GOPROXY=off
 unset GOSUMDB GOTOOLCHAIN || true
 mkdir -p .build evidence replays
-( cd coq && { echo "-Q theories Verif"; ls theories/*.v | sort; } > _CoqProject && coq_makefile -f _CoqProject -o Makefile >/dev/null && timeout 3000 make -j16 )
-( cd harness && for d in cmd/*/; do p=$(basename "$d" | tr a-z A-Z); sh ./gomod.sh "../.build/mod-$p"; timeout 3000 go build -modfile="../.build/mod-$p/go.mod" -tags verif -o "../.build/harness-$p" "./$d"; done )
+( cd coq && { echo "-Q theories Verif"; ls theories/*.v | sort; } > _CoqProject && coq_makefile -f _CoqProject -o Makefile >/dev/null && { timeout 3000 make -k -j16 || echo 'WARNING: some Coq files did not build (each ./check reports its own property)'; } )
+( cd harness && for d in cmd/c[0-9]*/; do p=$(basename "$d" | tr a-z A-Z); sh ./gomod.sh "../.build/mod-$p"; timeout 3000 go build -modfile="../.build/mod-$p/go.mod" -tags verif -o "../.build/harness-$p" "./$d" || echo "WARNING: harness $p did not build"; done )
+( cd harness && go build -modfile="../.build/mod-C05/go.mod" -o ../.build/hookstub ./cmd/hookstub )
 echo "setup ok"
